@@ -153,6 +153,10 @@ def oracle(case, line):
         if "ERR:internal!" in o or o.startswith("ERR:local") or o.startswith("ERR:other") or o == "BADOP" or "CLEANUP-ERR" in o:
             fail("unexpected-exception", "unexpected exception: " + o[:120], j)
             continue
+        if k in ("Q", "D") and R.total > (1 << 26):
+            if o != "skipped-large":
+                fail("shape", "dump/query of a layout above 64 MiB must be skipped", j)
+            continue
         if k in ("C", "I"):
             if k == "C":
                 off, ln = int(op[1]), int(op[2])
